@@ -37,6 +37,11 @@ def call(s, rng, force_bad=False):
         d = {a: rng.choice(img) for a in gen.AAS}
         # make sure at least two letters are really used
         d["A"], d["C"] = img[0], img[1]
+        if rng.random() < 0.35:
+            # entries for symbols that are not amino acids (ignored: no residue maps through them), bound to letters nothing else maps to
+            spare = [a for a in gen.AAS if a not in img]
+            for sym in rng.sample(["X", "B", "Z", "U", "O", "-", "*", "x"], rng.randint(1, 5)):
+                d[sym] = rng.choice(spare)
         ua = utok(d)
     r = rng.random()
     if r < 0.1:
